@@ -78,7 +78,10 @@ Definition DStr (s : string) : dyn := {| dty := "string"; dval := PStr s |}.
 Inductive bkind :=
 | BUntypedInt | BInt | BInt8 | BInt16 | BInt32 | BInt64
 | BUint | BUint8 | BUint16 | BUint32 | BUint64
-| BUntypedRune | BUntypedString | BString | BBool | BUntypedBool | BNonBasic.
+| BUntypedRune | BUntypedString | BString | BBool | BUntypedBool
+| BFloat32 | BFloat64 | BUntypedFloat       (* classified by the generator; trait VALUES of these kinds are outside the
+                                               modelled space: gen answers Unsupported *)
+| BNonBasic.
 
 Record tyinfo := { ti_bkind : bkind; ti_json_own : bool; ti_yaml_own : bool; ti_text_own : bool }.
 
@@ -155,20 +158,26 @@ Definition get_primary (s : list gvalue) : option (gvalue * bool) :=
   end.
 
 (* traits.go extractUnderlying: family of a trait type (floats are outside the modelled space) *)
-Inductive tkind := KString | KInt64 | KUint64 | KUnknown.
+Inductive tkind := KString | KInt64 | KUint64 | KFloat64 | KFloat32 | KUnknown.
 Definition extract_underlying (b : bkind) : tkind :=
   match b with
   | BUntypedInt | BInt | BInt8 | BInt16 | BInt32 | BInt64 => KInt64
   | BUntypedRune => KInt64                       (* repaired code; pinned: unknown *)
   | BUint | BUint8 | BUint16 | BUint32 | BUint64 => KUint64
   | BString => KString
+  | BFloat32 => KFloat32
+  | BFloat64 | BUntypedFloat => KFloat64
   | BUntypedString | BBool | BUntypedBool | BNonBasic => KUnknown
   end.
+Definition is_float_kind (b : bkind) : bool :=
+  match b with BFloat32 | BFloat64 | BUntypedFloat => true | _ => false end.
+
 Definition extract_underlying_orig (b : bkind) : tkind :=
   match b with BUntypedRune => KUnknown | _ => extract_underlying b end.
 Definition tkind_eqb (a b : tkind) : bool :=
   match a, b with
-  | KString, KString | KInt64, KInt64 | KUint64, KUint64 | KUnknown, KUnknown => true
+  | KString, KString | KInt64, KInt64 | KUint64, KUint64 | KFloat64, KFloat64 | KFloat32, KFloat32
+  | KUnknown, KUnknown => true
   | _, _ => false
   end.
 
@@ -215,6 +224,46 @@ Fixpoint lookup {V} (k : string) (l : list (string * V)) : option V :=
   | [] => None
   | (k', v) :: r => if String.eqb k k' then Some v else lookup k r
   end.
+
+(* ---- traits.go as data (regenerated by harness/cmd/xlate_genum_traits, tied in coq/ties/Tie_GEnumTraits.v) *)
+(* go/types names of the basic kinds *)
+Definition bkind_name (b : bkind) : string :=
+  match b with
+  | BUntypedInt => "UntypedInt" | BInt => "Int" | BInt8 => "Int8" | BInt16 => "Int16" | BInt32 => "Int32" | BInt64 => "Int64"
+  | BUint => "Uint" | BUint8 => "Uint8" | BUint16 => "Uint16" | BUint32 => "Uint32" | BUint64 => "Uint64"
+  | BUntypedRune => "UntypedRune" | BUntypedString => "UntypedString" | BString => "String"
+  | BBool => "Bool" | BUntypedBool => "UntypedBool"
+  | BFloat32 => "Float32" | BFloat64 => "Float64" | BUntypedFloat => "UntypedFloat"
+  | BNonBasic => ""
+  end.
+Definition all_basic_kinds : list bkind :=
+  [BUntypedInt; BInt; BInt8; BInt16; BInt32; BInt64; BUint; BUint8; BUint16; BUint32; BUint64; BUntypedRune;
+   BUntypedString; BString; BBool; BUntypedBool; BFloat32; BFloat64; BUntypedFloat].
+(* the `underlying` constants of traits.go *)
+Definition underlying_of_name (n : string) : option tkind :=
+  if String.eqb n "stringUnderlying" then Some KString
+  else if String.eqb n "uint64Underlying" then Some KUint64
+  else if String.eqb n "int64Underlying" then Some KInt64
+  else if String.eqb n "float64Underlying" then Some KFloat64
+  else if String.eqb n "float32Underlying" then Some KFloat32
+  else if String.eqb n "unknown" then Some KUnknown
+  else None.
+(* extractUnderlying read off its table: (family, ok) *)
+Definition extract_from_table (tbl : list (string * string)) (nonbasic fall : string) (b : bkind) : option tkind * bool :=
+  match b with
+  | BNonBasic => (underlying_of_name nonbasic, false)
+  | _ => (underlying_of_name (match lookup (bkind_name b) tbl with Some u => u | None => fall end), true)
+  end.
+(* hasUnderlying: `x, ok := extractUnderlying(); ok && x == u` *)
+Inductive hu_form := HuOkAndEq | HuOpaque (what : string).
+(* the conjuncts of the filter condition of a Get… method *)
+Inductive filter_atom :=
+| AtParsable | AtHasUnderlying (u : string) | AtNot (pred : string) | AtPred (pred : string) | AtOpaque (what : string).
+Definition codec_of_pred (p : string) : option (tyinfo -> bool) :=
+  if String.eqb p "implementsJSONUnmarshaler" then Some ti_json_own
+  else if String.eqb p "implementsYAMLUnmarshaler" then Some ti_yaml_own
+  else if String.eqb p "implementsTextUnmarshaler" then Some ti_text_own
+  else None.
 
 Definition exact_string (p : payload) : string :=
   match p with
@@ -380,14 +429,27 @@ Definition mk_tables (d : defn) (o : opts) (vs : list gvalue) (cols : list colum
              t_binsearch := Nat.ltb 15 (length vs); t_cols := cols |}
   else BuildErr.
 
+(* generate.go validateValueNames / reservedIdentifiers (fix C04-reserved-identifiers): a constant named like an
+   identifier the template binds where it refers to the constants — the receiver `e` of String() and the
+   accessors, the parameter `input` of Parse<T>, `text` / `ok` of its -caseInsensitive fallback — would be
+   shadowed there; generation fails.  (Before the fix such a definition generated `switch e { case e: …`.) *)
+Definition reserved_name (o : opts) (n : string) : bool :=
+  String.eqb n "e" || String.eqb n "input" || (o_ci o && (String.eqb n "text" || String.eqb n "ok")).
+(* the same for the identifiers of trait cells (validateTraitIdentifiers): definitions with such cells are
+   outside the modelled space *)
+Definition reserved_cell_var (n : string) : bool := String.eqb n "e" || String.eqb n "input".
+
 Definition gen (d : defn) (o : opts) : outcome tables :=
   let vs := sort_values (d_consts d) in
   match vs with
   | [] => Unsupported
   | first :: rest =>
+      if existsb (fun v => reserved_name o (g_name v)) vs then GenErr
+      else
       (* validateCaseInsensitiveNames: names that differ only by case cannot be told apart *)
       if o_ci o && negb (str_nodupb (map (fun v => to_lower (g_name v)) vs)) then GenErr
       else if o_notraits o then mk_tables d o vs []
+      else if existsb (fun v => existsb (fun c => reserved_cell_var (cl_var c)) (g_cells v)) vs then Unsupported
       else
         match first_columns d o first (g_cells first) with
         | Built cols0 =>
@@ -455,20 +517,54 @@ Definition sem_accessor (c : column) (e : Z) : payload :=
   | None => zero_payload (ti_bkind (col_info c))
   end.
 
-(* ---- codecs ---- *)
+(* ---- codecs ----
+   The decoders, encoders, Parse<T> and the small functions of the emitted code are INTERPRETERS of
+   control skeletons.  A skeleton says which steps a function takes in which order: for a decoder the
+   null check, the guarded library readings with the Parse attempts made on them (the plain name
+   attempt; per trait family a conversion T(x), plain or checked against wrap-around; the `len` gate of
+   the block; the polarity of the error test), the own-unmarshaler attempts.  The skeletons of the
+   current template are the constants cur_* below; harness/cmd/xlate_genum_skel regenerates them from
+   genum/gen/enumTemplate.gotmpl on every check (GEnumSkelGen.gen_skels), the theorems are proved for
+   EVERY skeleton record satisfying the executable well-formedness predicate skels_ok, and the
+   regenerated record is shown to satisfy it by vm_compute (coq/ties/Tie_GEnumSkel.v). *)
+Inductive codec_id := CoJSON | CoYAML | CoText.
+Definition codec_eqb (a b : codec_id) : bool :=
+  match a, b with CoJSON, CoJSON | CoYAML, CoYAML | CoText, CoText => true | _, _ => false end.
+Definition own_of (c : codec_id) (i : tyinfo) : bool :=
+  match c with CoJSON => ti_json_own i | CoYAML => ti_yaml_own i | CoText => ti_text_own i end.
+
+(* traits.go getParsableUnderlying(u, excluding) / GetParsable<Codec>Unmarshalable *)
 Definition family (t : tables) (k : tkind) (own : tyinfo -> bool) : list column :=
   filter (fun c => col_parsable c && tkind_eqb (extract_underlying (ti_bkind (col_info c))) k
                    && negb (own (col_info c))) (t_cols t).
 Definition family_own (t : tables) (own : tyinfo -> bool) : list column :=
   filter (fun c => col_parsable c && own (col_info c)) (t_cols t).
 
+(* the trait families the template ranges over: GetParsableUnderlying<K>For<Codec>,
+   GetParsable<Codec>Unmarshalable *)
+Inductive fam := FamKind (k : tkind) (c : codec_id) | FamOwn (c : codec_id).
+Definition fam_cols (t : tables) (f : fam) : list column :=
+  match f with
+  | FamKind k c => family t k (own_of c)
+  | FamOwn c => family_own t (own_of c)
+  end.
+Definition fam_eqb (a b : fam) : bool :=
+  match a, b with
+  | FamKind k c, FamKind k' c' => tkind_eqb k k' && codec_eqb c c'
+  | FamOwn c, FamOwn c' => codec_eqb c c'
+  | _, _ => false
+  end.
+Definition opt_fam_eqb (a b : option fam) : bool :=
+  match a, b with Some x, Some y => fam_eqb x y | None, None => true | _, _ => false end.
+
 Definition typed (c : column) (p : payload) : dyn := {| dty := col_type c; dval := p |}.
 Definition typed_int (c : column) (x : Z) : dyn := typed c (PInt (conv_int (ti_bkind (col_info c)) x)).
 
-Fixpoint try_all (t : tables) (inputs : list dyn) : option Z :=
+(* first successful Parse among the inputs *)
+Fixpoint try_with (P : dyn -> option Z) (inputs : list dyn) : option Z :=
   match inputs with
   | [] => None
-  | i :: r => match sem_parse t i with Some v => Some v | None => try_all t r end
+  | i :: r => match P i with Some v => Some v | None => try_with P r end
   end.
 
 (* what the libraries report about one document; native = result of the trait type's own
@@ -477,9 +573,21 @@ Record jview := { jv_null : bool;      (* the document is the literal null (json
                                           string / uint64 / int64 "succeeds" with "" / 0) *)
                   jv_string : option string; jv_u64 : option Z; jv_i64 : option Z;
                   jv_native : list (string * option payload) }.
-Record yview := { yv_value : string; yv_u64 : option Z; yv_i64 : option Z;
+Record yview := { yv_scalar : bool;    (* the node is a scalar (yaml.v3 hands sequence and mapping nodes to
+                                          UnmarshalYAML too; their Value is "") *)
+                  yv_value : string; yv_u64 : option Z; yv_i64 : option Z;
                   yv_native : list (string * option payload) }.
 Record tview := { tv_text : string; tv_native : list (string * option payload) }.
+(* the common form the interpreter works on; dv_null = the document holds no scalar at all (JSON null, a
+   YAML sequence or mapping) *)
+Record dview := { dv_null : bool; dv_str : option string; dv_u64 : option Z; dv_i64 : option Z;
+                  dv_native : list (string * option payload) }.
+Definition dv_of_j (v : jview) : dview :=
+  {| dv_null := jv_null v; dv_str := jv_string v; dv_u64 := jv_u64 v; dv_i64 := jv_i64 v; dv_native := jv_native v |}.
+Definition dv_of_y (v : yview) : dview :=
+  {| dv_null := negb (yv_scalar v); dv_str := Some (yv_value v); dv_u64 := yv_u64 v; dv_i64 := yv_i64 v; dv_native := yv_native v |}.
+Definition dv_of_t (v : tview) : dview :=
+  {| dv_null := false; dv_str := Some (tv_text v); dv_u64 := None; dv_i64 := None; dv_native := tv_native v |}.
 
 Definition native_attempts (cols : list column) (nat_view : list (string * option payload)) : list dyn :=
   flat_map (fun c => match lookup (col_type c) nat_view with
@@ -493,52 +601,396 @@ Definition native_attempts (cols : list column) (nat_view : list (string * optio
 Definition int_attempts (rc : bool) (cols : list column) (x : Z) : list dyn :=
   flat_map (fun c => if rc && negb (conv_int (ti_bkind (col_info c)) x =? x) then [] else [typed_int c x]) cols.
 
-Definition json_attempts_gen (rc : bool) (t : tables) (v : jview) : list dyn :=
-  (match jv_string v with
-   | Some s => DStr s :: map (fun c => typed c (PStr s)) (family t KString ti_json_own)
-   | None => []
-   end)
-  ++ (match jv_u64 v with
-      | Some u => int_attempts rc (family t KUint64 ti_json_own) u
-      | None => []
-      end)
-  ++ (match jv_i64 v with
-      | Some i => int_attempts rc (family t KInt64 ti_json_own) i
-      | None => []
-      end)
-  ++ native_attempts (family_own t ti_json_own) (jv_native v).
-Definition json_attempts (t : tables) (v : jview) : list dyn := json_attempts_gen true t v.
-(* UnmarshalJSON rejects null before any fallback (fix C05-json-null-rejected) *)
-Definition decode_json (t : tables) (v : jview) : option Z :=
-  if jv_null v then None else try_all t (json_attempts t v).
-(* before that fix *)
-Definition decode_json_nullok (t : tables) (v : jview) : option Z := try_all t (json_attempts t v).
+(* ---- decoder skeletons *)
+(* the library reading a block is guarded by: json.Unmarshal into string / uint64 / int64 / float64 /
+   float32; YAML value.Value, strconv.ParseUint/ParseInt(…, 10, 64), ParseFloat(…, 64 | 32); the text *)
+Inductive src := SrcString | SrcU64 | SrcI64 | SrcF64 | SrcF32.
+(* how the reading reaches Parse<T>: as it is; converted T(x); converted and checked
+   `if tv := T(x); wide(tv) == x` *)
+Inductive conv := CvNone | CvTyped | CvChecked.
+(* one Parse attempt (followed by `if err == nil { return nil }`): on the reading itself
+   (at_fam = None) or, ranging over a trait family, on the reading converted to each trait's type *)
+Record attempt := { at_fam : option fam; at_conv : conv }.
+Inductive step :=
+| StNullReject                                                    (* documents that hold no scalar are refused up front:
+                                                                     if string(data) == "null" { return err } /
+                                                                     if value.Kind != yaml.ScalarNode { return err } *)
+| StRead (gate : option fam) (s : src) (on_ok : bool) (body : list attempt)
+                                                                  (* [{{if len gate}}] if reading; err == nil (on_ok) / err != nil { body } *)
+| StNative (gate : option fam) (f : fam) (via : codec_id)         (* range f: v := new(T); if unmarshal-via(v) == nil { Parse(v) } *)
+| StOpaque (what : string).                                       (* code outside the skeleton language *)
+(* option gates of a function: the {{if}} / {{range}} nodes enclosing its emission *)
+Inductive gate := GFlag (name : string) (positive : bool) | GCond (text : string) (positive : bool) | GRange (text : string).
+Record dskel := { ds_gates : list gate; ds_steps : list step }.
+
+Definition src_eqb (a b : src) : bool :=
+  match a, b with
+  | SrcString, SrcString | SrcU64, SrcU64 | SrcI64, SrcI64 | SrcF64, SrcF64 | SrcF32, SrcF32 => true
+  | _, _ => false
+  end.
+Definition conv_eqb (a b : conv) : bool :=
+  match a, b with CvNone, CvNone | CvTyped, CvTyped | CvChecked, CvChecked => true | _, _ => false end.
+Definition attempt_eqb (a b : attempt) : bool := opt_fam_eqb (at_fam a) (at_fam b) && conv_eqb (at_conv a) (at_conv b).
+
+Definition read_src (v : dview) (s : src) : option payload :=
+  match s with
+  | SrcString => match dv_str v with Some x => Some (PStr x) | None => None end
+  | SrcU64 => match dv_u64 v with Some x => Some (PInt x) | None => None end
+  | SrcI64 => match dv_i64 v with Some x => Some (PInt x) | None => None end
+  | SrcF64 | SrcF32 => None          (* floating-point traits are outside the modelled space *)
+  end.
+Definition zero_src (s : src) : payload := match s with SrcString => PStr "" | _ => PInt 0 end.
+Definition src_type (s : src) : string :=
+  match s with SrcString => "string" | SrcU64 => "uint64" | SrcI64 => "int64" | SrcF64 => "float64" | SrcF32 => "float32" end.
+
+Definition attempt_dyns (t : tables) (s : src) (p : payload) (a : attempt) : list dyn :=
+  match at_fam a with
+  | None => [ {| dty := src_type s; dval := p |} ]
+  | Some f =>
+      match p with
+      | PInt x => int_attempts (match at_conv a with CvChecked => true | _ => false end) (fam_cols t f) x
+      | _ => map (fun c => typed c p) (fam_cols t f)
+      end
+  end.
+Definition gate_open (t : tables) (g : option fam) : bool :=
+  match g with None => true | Some f => match fam_cols t f with [] => false | _ => true end end.
+(* the Parse inputs a step tries, in order *)
+Definition step_dyns (t : tables) (v : dview) (st : step) : list dyn :=
+  match st with
+  | StNullReject | StOpaque _ => []
+  | StRead g s on_ok body =>
+      if gate_open t g then
+        match read_src v s, on_ok with
+        | Some p, true => flat_map (attempt_dyns t s p) body
+        | None, false => flat_map (attempt_dyns t s (zero_src s)) body     (* err != nil: the variable holds its zero value *)
+        | _, _ => []
+        end
+      else []
+  | StNative g f _ => if gate_open t g then native_attempts (fam_cols t f) (dv_native v) else []
+  end.
+Definition skel_attempts (t : tables) (v : dview) (sk : list step) : list dyn := flat_map (step_dyns t v) sk.
+
+(* a decoder: the steps in order, the first successful Parse wins, an error at the end *)
+Fixpoint run_steps (P : dyn -> option Z) (t : tables) (v : dview) (sk : list step) : option Z :=
+  match sk with
+  | [] => None
+  | StNullReject :: r => if dv_null v then None else run_steps P t v r
+  | st :: r => match try_with P (step_dyns t v st) with Some z => Some z | None => run_steps P t v r end
+  end.
+
+(* ---- Parse<T> skeleton *)
+Inductive pkey := PkInput | PkLowerText.         (* switch input | text, ok := input.(string); switch strings.ToLower(text) *)
+Inductive pconst := PcName | PcLowerName | PcTraits.   (* "{{$val.Name}}" | "{{$val.LowerCaseName}}" | ParsableValuesOf $val *)
+Inductive vsrc := VsAll | VsDedup.               (* range $values | range $values.ValueDeduplicatedSet *)
+Record pswitch := { sw_key : pkey; sw_over : vsrc; sw_consts : list pconst }.
+Inductive pstep :=
+| PsSwitch (sw : pswitch)                        (* a matching case returns its value *)
+| PsIfFlag (flag : string) (body : list pstep)   (* {{if $.Flag}} … {{end}} *)
+| PsFail                                         (* return 0, error *)
+| PsOpaque (what : string).
+
+Definition vs_list (t : tables) (v : vsrc) : list gvalue := match v with VsAll => t_all t | VsDedup => t_dedup t end.
+Definition flag_on (o : opts) (f : string) : bool :=
+  if String.eqb f "CaseInsensitive" then o_ci o
+  else if String.eqb f "GenJSON" then o_json o
+  else if String.eqb f "GenYAML" then o_yaml o
+  else if String.eqb f "GenText" then o_text o
+  else false.
+(* ParsableValuesOf: the constants a case lists after the name *)
+Definition parsable_values_of (cols : list column) (v : gvalue) : list dyn := tl (case_consts cols v).
+Definition sw_case (t : tables) (sw : pswitch) (g : gvalue) : list dyn :=
+  flat_map (fun pc => match pc with
+                      | PcName => [DStr (g_name g)]
+                      | PcLowerName => [DStr (to_lower (g_name g))]
+                      | PcTraits => parsable_values_of (t_cols t) g
+                      end) (sw_consts sw).
+Definition sw_keyval (k : pkey) (input : dyn) : option dyn :=
+  match k with
+  | PkInput => Some input
+  | PkLowerText => match dval input with
+                   | PStr s => if String.eqb (dty input) "string" then Some (DStr (to_lower s)) else None
+                   | _ => None
+                   end
+  end.
+Definition run_switch (t : tables) (sw : pswitch) (input : dyn) : option Z :=
+  match sw_keyval (sw_key sw) input with
+  | None => None
+  | Some k => match find (fun g => existsb (dyn_eqb k) (sw_case t sw g)) (vs_list t (sw_over sw)) with
+              | Some g => Some (g_z g)
+              | None => None
+              end
+  end.
+Inductive pres := PrFound (z : Z) | PrFail | PrNext.
+Fixpoint run_pstep (t : tables) (input : dyn) (s : pstep) : pres :=
+  match s with
+  | PsSwitch sw => match run_switch t sw input with Some z => PrFound z | None => PrNext end
+  | PsIfFlag fl body =>
+      if flag_on (t_opts t) fl then
+        (fix go (l : list pstep) : pres :=
+           match l with
+           | [] => PrNext
+           | x :: r => match run_pstep t input x with PrNext => go r | res => res end
+           end) body
+      else PrNext
+  | PsFail => PrFail
+  | PsOpaque _ => PrFail
+  end.
+Fixpoint run_psteps (t : tables) (input : dyn) (l : list pstep) : pres :=
+  match l with
+  | [] => PrNext
+  | x :: r => match run_pstep t input x with PrNext => run_psteps t input r | res => res end
+  end.
+Definition sem_parse_sk (sk : list pstep) (t : tables) (input : dyn) : option Z :=
+  match run_psteps t input sk with PrFound z => Some z | _ => None end.
+
+(* ---- the small functions *)
+Inductive enc_skel := EncJSONOfString | EncBytesOfString | EncString | EncOpaque (what : string).
+   (* return json.Marshal(e.String()) | return []byte(e.String()), nil | return e.String(), nil *)
+Inductive tbl_skel := TblNames (over : vsrc) | TblOpaque (what : string).        (* one entry per value of the list *)
+Inductive val_skel := ValCloneOfTable | ValOpaque (what : string).               (* return slices.Clone(_TValues) *)
+Inductive str_skel := StrSwitch (over : vsrc) (pre suf : string) | StrOpaque (what : string).
+   (* switch e { case Name: return "Name" … default: return fmt.Sprintf(pre ++ T ++ suf, e) } *)
+Inductive mem_skel := MemBinarySearch | MemLinear | MemOpaque (what : string).   (* slices.BinarySearch | for … if v == e *)
+Inductive iv_skel := IvThreshold (count_over : vsrc) (n : nat) (above below : mem_skel) | IvOpaque (what : string).
+   (* {{if gt (len list) n}} above {{else}} below {{end}} *)
+Inductive acc_skel := AccSwitchRowsElseZero | AccOpaque (what : string).
+   (* switch e { case Owner: return Value … }; return *new(T) *)
+
+Record skels := {
+  sk_json : dskel; sk_text : dskel; sk_yaml : dskel;
+  sk_enc_json : enc_skel; sk_enc_text : enc_skel; sk_enc_yaml : enc_skel;
+  sk_enc_gates : list (list gate);
+  sk_parse : list pstep; sk_parse_gates : list gate;
+  sk_parsestring : bool; sk_parsegeneric : bool;        (* `return Parse<T>(x)` *)
+  sk_table : tbl_skel; sk_values : val_skel; sk_stringvalues : tbl_skel;
+  sk_string : str_skel; sk_isvalid : iv_skel; sk_accessor : acc_skel;
+  sk_plain_gates : list (list gate);                    (* ParseString, ParseGeneric, Values, StringValues, String, IsValid *)
+  sk_accessor_gates : list gate }.
+
+(* the skeletons of the current template *)
+Definition plain_attempt : attempt := {| at_fam := None; at_conv := CvNone |}.
+Definition fam_attempt (f : fam) (cv : conv) : attempt := {| at_fam := Some f; at_conv := cv |}.
+Definition num_steps (c : codec_id) (int_ok : bool) (cv : conv) : list step :=
+  [ StRead (Some (FamKind KUint64 c)) SrcU64 int_ok [fam_attempt (FamKind KUint64 c) cv];
+    StRead (Some (FamKind KInt64 c)) SrcI64 int_ok [fam_attempt (FamKind KInt64 c) cv];
+    StRead (Some (FamKind KFloat64 c)) SrcF64 true [fam_attempt (FamKind KFloat64 c) CvTyped];
+    StRead (Some (FamKind KFloat32 c)) SrcF32 true [fam_attempt (FamKind KFloat32 c) CvTyped];
+    StNative (Some (FamOwn c)) (FamOwn c) c ].
+Definition json_steps_gen (nullcheck : bool) (cv : conv) : list step :=
+  (if nullcheck then [StNullReject] else [])
+  ++ StRead None SrcString true [plain_attempt; fam_attempt (FamKind KString CoJSON) CvTyped]
+  :: num_steps CoJSON true cv.
+Definition yaml_steps_gen2 (scalarcheck int_ok : bool) (cv : conv) : list step :=
+  (if scalarcheck then [StNullReject] else []) ++
+  StRead None SrcString true [plain_attempt]
+  :: StRead None SrcString true [fam_attempt (FamKind KString CoYAML) CvTyped]
+  :: num_steps CoYAML int_ok cv.
+Definition yaml_steps_gen := yaml_steps_gen2 true.
+Definition text_steps : list step :=
+  [ StRead None SrcString true [plain_attempt];
+    StRead None SrcString true [fam_attempt (FamKind KString CoText) CvTyped];
+    StNative (Some (FamOwn CoText)) (FamOwn CoText) CoText ].
+Definition cur_parse_skel : list pstep :=
+  [ PsSwitch {| sw_key := PkInput; sw_over := VsAll; sw_consts := [PcName; PcTraits] |};
+    PsIfFlag "CaseInsensitive" [PsSwitch {| sw_key := PkLowerText; sw_over := VsAll; sw_consts := [PcLowerName] |}] ].
+Definition cur_skels : skels :=
+  {| sk_json := {| ds_gates := [GFlag "GenJSON" true]; ds_steps := json_steps_gen true CvChecked |};
+     sk_text := {| ds_gates := [GFlag "GenText" true]; ds_steps := text_steps |};
+     sk_yaml := {| ds_gates := [GFlag "GenYAML" true]; ds_steps := yaml_steps_gen true CvChecked |};
+     sk_enc_json := EncJSONOfString; sk_enc_text := EncBytesOfString; sk_enc_yaml := EncString;
+     sk_enc_gates := [[GFlag "GenJSON" true]; [GFlag "GenText" true]; [GFlag "GenYAML" true]];
+     sk_parse := cur_parse_skel; sk_parse_gates := [];
+     sk_parsestring := true; sk_parsegeneric := true;
+     sk_table := TblNames VsDedup; sk_values := ValCloneOfTable; sk_stringvalues := TblNames VsDedup;
+     sk_string := StrSwitch VsDedup "Undefined" ":%d";
+     sk_isvalid := IvThreshold VsAll 15 MemBinarySearch MemLinear;
+     sk_accessor := AccSwitchRowsElseZero;
+     sk_plain_gates := [[]; []; []; []; []; []];
+     sk_accessor_gates := [GRange "index $.Traits $i"] |}.
+
+(* ---- the emitted functions as interpreters of a skeleton record *)
+Definition decode_json_sk (k : skels) (t : tables) (v : jview) : option Z :=
+  run_steps (sem_parse_sk (sk_parse k) t) t (dv_of_j v) (ds_steps (sk_json k)).
+Definition decode_yaml_sk (k : skels) (t : tables) (v : yview) : option Z :=
+  run_steps (sem_parse_sk (sk_parse k) t) t (dv_of_y v) (ds_steps (sk_yaml k)).
+Definition decode_text_sk (k : skels) (t : tables) (v : tview) : option Z :=
+  run_steps (sem_parse_sk (sk_parse k) t) t (dv_of_t v) (ds_steps (sk_text k)).
+
+(* the Parse inputs a decoder tries on a document, in order *)
+Definition json_attempts_sk (k : skels) (t : tables) (v : jview) : list dyn := skel_attempts t (dv_of_j v) (ds_steps (sk_json k)).
+Definition yaml_attempts_sk (k : skels) (t : tables) (v : yview) : list dyn := skel_attempts t (dv_of_y v) (ds_steps (sk_yaml k)).
+Definition text_attempts_sk (k : skels) (t : tables) (v : tview) : list dyn := skel_attempts t (dv_of_t v) (ds_steps (sk_text k)).
+
+Definition sem_values_sk (k : skels) (t : tables) : list Z :=
+  match sk_values k, sk_table k with
+  | ValCloneOfTable, TblNames vs => map g_z (vs_list t vs)
+  | _, _ => []
+  end.
+Definition sem_stringvalues_sk (k : skels) (t : tables) : list string :=
+  match sk_stringvalues k with TblNames vs => map g_name (vs_list t vs) | TblOpaque _ => [] end.
+Definition sem_string_sk (k : skels) (t : tables) (e : Z) : string :=
+  match sk_string k with
+  | StrSwitch vs pre suf =>
+      match find (fun g => Z.eqb (g_z g) e) (vs_list t vs) with
+      | Some g => g_name g
+      | None => (pre ++ ty_name (t_ty t) ++ (if String.eqb suf ":%d" then ":" ++ dec e else suf))%string
+      end
+  | StrOpaque _ => ""
+  end.
+Definition sem_member (m : mem_skel) (table : list Z) (e : Z) : bool :=
+  match m with
+  | MemBinarySearch => snd (binsearch table e)
+  | MemLinear => existsb (fun v => Z.eqb v e) table
+  | MemOpaque _ => false
+  end.
+Definition sem_isvalid_sk (k : skels) (t : tables) (e : Z) : bool :=
+  match sk_isvalid k with
+  | IvThreshold vs n above below =>
+      sem_member (if Nat.ltb n (length (vs_list t vs)) then above else below) (sem_values_sk k t) e
+  | IvOpaque _ => false
+  end.
+Definition sem_accessor_sk (k : skels) (c : column) (e : Z) : payload :=
+  match sk_accessor k with
+  | AccSwitchRowsElseZero => sem_accessor c e
+  | AccOpaque _ => zero_payload (ti_bkind (col_info c))
+  end.
+Definition sem_encode (x : enc_skel) (s : string) : string :=
+  match x with EncJSONOfString => quote s | EncBytesOfString | EncString => s | EncOpaque _ => "" end.
+Definition encode_json_sk (k : skels) (t : tables) (e : Z) : string := sem_encode (sk_enc_json k) (sem_string_sk k t e).
+Definition encode_text_sk (k : skels) (t : tables) (e : Z) : string := sem_encode (sk_enc_text k) (sem_string_sk k t e).
+Definition encode_yaml_sk (k : skels) (t : tables) (e : Z) : string := sem_encode (sk_enc_yaml k) (sem_string_sk k t e).
+
+(* ---- well-formedness of a skeleton record (executable) *)
+(* soundness of a decoder: every attempt is made on a faithful reading — guards test err == nil, an
+   integer reading reaches Parse only through the checked conversion, own-unmarshaler attempts use
+   the decoder's own codec, nothing opaque; JSON and YAML decoders refuse documents without a scalar first *)
+Definition attempt_sound (s : src) (a : attempt) : bool :=
+  match s with
+  | SrcString | SrcF64 | SrcF32 => true
+  | SrcU64 | SrcI64 => match at_fam a, at_conv a with Some _, CvChecked => true | _, _ => false end
+  end.
+Definition step_sound (c : codec_id) (st : step) : bool :=
+  match st with
+  | StNullReject => true
+  | StRead _ s on_ok body => on_ok && forallb (attempt_sound s) body
+  | StNative _ _ via => codec_eqb via c
+  | StOpaque _ => false
+  end.
+Definition steps_sound (c : codec_id) (sk : list step) : bool := forallb (step_sound c) sk.
+(* completeness: the decoder does try a given reading *)
+Definition gate_ok (g : option fam) (a : attempt) : bool :=
+  match g with None => true | Some f => opt_fam_eqb (at_fam a) (Some f) end.
+Definition step_has (s : src) (a : attempt) (st : step) : bool :=
+  match st with
+  | StRead g s' true body => src_eqb s s' && gate_ok g a && existsb (attempt_eqb a) body
+  | _ => false
+  end.
+Definition steps_have (s : src) (a : attempt) (sk : list step) : bool := existsb (step_has s a) sk.
+Definition step_has_native (c : codec_id) (st : step) : bool :=
+  match st with
+  | StNative g f via => fam_eqb f (FamOwn c) && codec_eqb via c
+                        && match g with None => true | Some f' => fam_eqb f' (FamOwn c) end
+  | _ => false
+  end.
+(* the name attempt comes first (after the null check): a defined name decodes to its value whatever
+   the trait families hold *)
+Definition name_first (sk : list step) : bool :=
+  match (match sk with StNullReject :: r => r | _ => sk end) with
+  | StRead None SrcString true ({| at_fam := None; at_conv := _ |} :: _) :: _ => true
+  | _ => false
+  end.
+Definition null_checked (sk : list step) : bool := match sk with StNullReject :: _ => true | _ => false end.
+Definition steps_complete (c : codec_id) (sk : list step) : bool :=
+  name_first sk
+  && steps_have SrcString (fam_attempt (FamKind KString c) CvTyped) sk
+  && match c with
+     | CoText => true
+     | _ => steps_have SrcU64 (fam_attempt (FamKind KUint64 c) CvChecked) sk
+            && steps_have SrcI64 (fam_attempt (FamKind KInt64 c) CvChecked) sk
+     end
+  && existsb (step_has_native c) sk.
+Definition gate_eqb (a b : gate) : bool :=
+  match a, b with
+  | GFlag n p, GFlag n' p' => String.eqb n n' && Bool.eqb p p'
+  | GCond n p, GCond n' p' => String.eqb n n' && Bool.eqb p p'
+  | GRange n, GRange n' => String.eqb n n'
+  | _, _ => false
+  end.
+Fixpoint list_eqb {A} (eqb : A -> A -> bool) (a b : list A) : bool :=
+  match a, b with
+  | [], [] => true
+  | x :: a', y :: b' => eqb x y && list_eqb eqb a' b'
+  | _, _ => false
+  end.
+Definition gates_are (flag : string) (gs : list gate) : bool := list_eqb gate_eqb gs [GFlag flag true].
+Definition codec_flag (c : codec_id) : string :=
+  match c with CoJSON => "GenJSON" | CoYAML => "GenYAML" | CoText => "GenText" end.
+Definition dskel_ok (c : codec_id) (d : dskel) : bool :=
+  gates_are (codec_flag c) (ds_gates d)
+  && steps_sound c (ds_steps d) && steps_complete c (ds_steps d)
+  && match c with CoText => true | _ => null_checked (ds_steps d) end.
+
+(* Parse<T> and the small functions: structural identity with the current skeleton (any change of
+   their control structure is a change of behaviour) *)
+Definition pkey_eqb (a b : pkey) : bool := match a, b with PkInput, PkInput | PkLowerText, PkLowerText => true | _, _ => false end.
+Definition pconst_eqb (a b : pconst) : bool :=
+  match a, b with PcName, PcName | PcLowerName, PcLowerName | PcTraits, PcTraits => true | _, _ => false end.
+Definition vsrc_eqb (a b : vsrc) : bool := match a, b with VsAll, VsAll | VsDedup, VsDedup => true | _, _ => false end.
+Definition pswitch_eqb (a b : pswitch) : bool :=
+  pkey_eqb (sw_key a) (sw_key b) && vsrc_eqb (sw_over a) (sw_over b) && list_eqb pconst_eqb (sw_consts a) (sw_consts b).
+Definition parse_skel_ok (sk : list pstep) : bool :=
+  match sk with
+  | [PsSwitch a; PsIfFlag fl [PsSwitch b]] =>
+      pswitch_eqb a {| sw_key := PkInput; sw_over := VsAll; sw_consts := [PcName; PcTraits] |}
+      && String.eqb fl "CaseInsensitive"
+      && pswitch_eqb b {| sw_key := PkLowerText; sw_over := VsAll; sw_consts := [PcLowerName] |}
+  | _ => false
+  end.
+Definition enc_eqb (a b : enc_skel) : bool :=
+  match a, b with
+  | EncJSONOfString, EncJSONOfString | EncBytesOfString, EncBytesOfString | EncString, EncString => true
+  | _, _ => false
+  end.
+Definition small_ok (k : skels) : bool :=
+  enc_eqb (sk_enc_json k) EncJSONOfString && enc_eqb (sk_enc_text k) EncBytesOfString && enc_eqb (sk_enc_yaml k) EncString
+  && list_eqb (list_eqb gate_eqb) (sk_enc_gates k) [[GFlag "GenJSON" true]; [GFlag "GenText" true]; [GFlag "GenYAML" true]]
+  && list_eqb gate_eqb (sk_parse_gates k) []
+  && sk_parsestring k && sk_parsegeneric k
+  && match sk_table k with TblNames VsDedup => true | _ => false end
+  && match sk_values k with ValCloneOfTable => true | _ => false end
+  && match sk_stringvalues k with TblNames VsDedup => true | _ => false end
+  && match sk_string k with StrSwitch VsDedup pre suf => String.eqb pre "Undefined" && String.eqb suf ":%d" | _ => false end
+  && match sk_isvalid k with IvThreshold VsAll 15 MemBinarySearch MemLinear => true | _ => false end
+  && match sk_accessor k with AccSwitchRowsElseZero => true | _ => false end
+  && list_eqb (list_eqb gate_eqb) (sk_plain_gates k) [[]; []; []; []; []; []]
+  && list_eqb gate_eqb (sk_accessor_gates k) [GRange "index $.Traits $i"].
+Definition skels_ok (k : skels) : bool :=
+  dskel_ok CoJSON (sk_json k) && dskel_ok CoText (sk_text k) && dskel_ok CoYAML (sk_yaml k)
+  && parse_skel_ok (sk_parse k) && small_ok k.
+
+(* ---- the functions of the current template *)
+Definition try_all (t : tables) (inputs : list dyn) : option Z := try_with (sem_parse t) inputs.
+Definition json_attempts (t : tables) (v : jview) : list dyn := json_attempts_sk cur_skels t v.
+Definition yaml_attempts (t : tables) (v : yview) : list dyn := yaml_attempts_sk cur_skels t v.
+Definition text_attempts (t : tables) (v : tview) : list dyn := text_attempts_sk cur_skels t v.
+Definition decode_json (t : tables) (v : jview) : option Z := decode_json_sk cur_skels t v.
+Definition decode_yaml (t : tables) (v : yview) : option Z := decode_yaml_sk cur_skels t v.
+Definition decode_text (t : tables) (v : tview) : option Z := decode_text_sk cur_skels t v.
+(* earlier versions of the template, as skeletons (records of repaired defects):
+   before fix C05-json-null-rejected (no null check) *)
+Definition decode_json_nullok (t : tables) (v : jview) : option Z :=
+  run_steps (sem_parse t) t (dv_of_j v) (json_steps_gen false CvChecked).
 (* before the range check: plain wrapping conversion *)
-Definition decode_json_norc (t : tables) (v : jview) : option Z := try_all t (json_attempts_gen false t v).
-
-Definition text_attempts (t : tables) (v : tview) : list dyn :=
-  DStr (tv_text v) :: map (fun c => typed c (PStr (tv_text v))) (family t KString ti_text_own)
-  ++ native_attempts (family_own t ti_text_own) (tv_native v).
-Definition decode_text (t : tables) (v : tview) : option Z := try_all t (text_attempts t v).
-
-(* [fixed] = true: numeric fallbacks run when strconv succeeded (err == nil);
-   false: the pinned guard err != nil — they run when it FAILED, with the zero result *)
-Definition yaml_attempts_gen2 (fixed rc : bool) (t : tables) (v : yview) : list dyn :=
-  DStr (yv_value v) :: map (fun c => typed c (PStr (yv_value v))) (family t KString ti_yaml_own)
-  ++ (match yv_u64 v with
-      | Some u => if fixed then int_attempts rc (family t KUint64 ti_yaml_own) u else []
-      | None => if fixed then [] else int_attempts rc (family t KUint64 ti_yaml_own) 0
-      end)
-  ++ (match yv_i64 v with
-      | Some i => if fixed then int_attempts rc (family t KInt64 ti_yaml_own) i else []
-      | None => if fixed then [] else int_attempts rc (family t KInt64 ti_yaml_own) 0
-      end)
-  ++ native_attempts (family_own t ti_yaml_own) (yv_native v).
-(* [fixed] = true: the current code (guards err == nil, range check); false: the pinned code *)
-Definition yaml_attempts_gen (fixed : bool) (t : tables) (v : yview) : list dyn := yaml_attempts_gen2 fixed fixed t v.
-Definition decode_yaml (t : tables) (v : yview) : option Z := try_all t (yaml_attempts_gen true t v).
-Definition decode_yaml_orig (t : tables) (v : yview) : option Z := try_all t (yaml_attempts_gen false t v).
-Definition decode_yaml_norc (t : tables) (v : yview) : option Z := try_all t (yaml_attempts_gen2 true false t v).
+Definition decode_json_norc (t : tables) (v : jview) : option Z :=
+  run_steps (sem_parse t) t (dv_of_j v) (json_steps_gen true CvTyped).
+Definition decode_yaml_norc (t : tables) (v : yview) : option Z :=
+  run_steps (sem_parse t) t (dv_of_y v) (yaml_steps_gen true CvTyped).
+(* the pinned code: the numeric fallbacks guarded by err != nil — they run when strconv FAILED, with 0 *)
+Definition decode_yaml_orig (t : tables) (v : yview) : option Z :=
+  run_steps (sem_parse t) t (dv_of_y v) (yaml_steps_gen2 false false CvTyped).
+(* before fix C05-yaml-nonscalar-rejected: the node kind is not looked at *)
+Definition decode_yaml_anykind (t : tables) (v : yview) : option Z :=
+  run_steps (sem_parse t) t (dv_of_y v) (yaml_steps_gen2 false true CvChecked).
 
 (* encoders: all three emit String() *)
 Definition encode_json (t : tables) (e : Z) : string := quote (sem_string t e).
